@@ -1,6 +1,6 @@
 (* C16 — shape of the generated cases and the two executable verdicts. No proofs. *)
 From VLib Require Import CaseLib.
-From C16 Require Import Model ModelExt.
+From C16 Require Import Model ModelExt ModelDeadline.
 
 Definition ids_eqb (a b : ids) : bool := key_eqb a b.
 Definition doc_eqb (a b : doc) : bool := key_eqb (fst a) (fst b) && N.eqb (snd a) (snd b).
@@ -349,6 +349,77 @@ Definition page_allowed (q : areq) (hot hotread cold : list shard) (calls : list
     | _, _ => false
     end.
 
+Definition sres_agrees_fwd (m impl : sres) : bool :=
+  match m, impl with
+  | SErr a, SErr b => errk_eqb a b
+  | SOk p l r, SOk p' l' r' => Bool.eqb p p' && list_eqb id_eqb (map fst l) (map fst l') && extra_eqb r r'
+  | _, _ => false
+  end.
+(* ------------------------------------------------------------------ extension: the request context expires
+   mid-search. The specification does NOT use the timed model: it is evaluated on what was observed — the
+   stores that really ANSWERED the Search call (every other replica failed with the context error or was
+   never asked) — with the untimed checkers above: a response must be the page / rest / flag of exactly the
+   shards that had an answering replica, complete only if every shard had one; an error is accepted when it is
+   the verdict's, or (kind "other") when the context expired while a replica had not answered yet. *)
+Definition eff_shard (answered : list src) (sh : tshard) : shard :=
+  map (fun r => (fst (fst r), if memb Nat.eqb (fst (fst r)) answered then snd (fst r) else BErr)) sh.
+Definition eff_tier (answered : list src) (t : list tshard) : list shard := map (eff_shard answered) t.
+(* the context expired while some replica had not answered: expiry e <= its availability (or never available) *)
+Definition expired_on_someone (d : option nat) (answered : list src) (tiers : list treplica) : bool :=
+  match d with
+  | None => false
+  | Some e => existsb (fun r => negb (memb Nat.eqb (fst (fst r)) answered)
+                                && match snd r with Some a => Nat.leb e a | None => true end) tiers
+  end.
+Definition dl_allowed (d : option nat) (hot hotread cold : list tshard) (off size : nat) (rev : bool) (itv : N)
+           (naggs : nat) (answered : list src) (impl : sres) (pp : bool * bool) : bool :=
+  search_allowed (eff_tier answered hot) (eff_tier answered hotread) (eff_tier answered cold) off size rev itv naggs [] impl pp
+  || match impl with
+     | SErr EOther => expired_on_someone d answered (concat (hot ++ hotread ++ cold))
+     | _ => false
+     end.
+Definition tsres_agrees (m : tsres) (impl : sres) : bool :=
+  match m with TS r => sres_agrees_fwd r impl | TSHang => false end.
+
+(* what each handler asks (ModelDeadline.tapi_of) and shows *)
+Definition h_off (h : handler) (off : nat) : nat := match h with HSearch | HComplex => off | _ => 0 end.
+Definition h_size (h : handler) (size : nat) : nat := match h with HSearch | HComplex => size | _ => 0 end.
+Definition h_rev (h : handler) (rev : bool) : bool := match h with HSearch | HComplex => rev | _ => false end.
+Definition h_itv (h : handler) (itv : N) : N := match h with HComplex | HHist => itv | _ => 0%N end.
+Definition h_naggs (h : handler) (naggs : nat) : nat := match h with HComplex | HAgg => naggs | _ => 0 end.
+Definition shows_hist (h : handler) (itv : N) : bool := negb (N.eqb (h_itv h itv) 0).
+Definition dlapi_allowed (h : handler) (d : option nat) (hot hotread cold : list tshard) (off size : nat) (rev : bool)
+           (itv : N) (naggs : nat) (answered : list src) (impl : api) (pp : bool * bool) : bool :=
+  if h_invalid h size itv naggs then match impl with AErr GInvalidArgument => true | _ => false end
+  else
+    match verdict_of (fst pp) (snd pp) (eff_tier answered hot) (eff_tier answered hotread) (eff_tier answered cold), impl with
+    | VErr ETooManyFrac, AOnlyError => true
+    | VErr EWantsOld, AErr GInvalidArgument => true
+    | VErr EOther, AErr GInternal => true
+    | VOk p qs xs, AResp flag code out r =>
+        let U := flat_map snd qs in
+        Bool.eqb flag p && ecode_eqb code (if p then CPartial else CNo)
+        && (p || Nat.eqb (errs_spec xs) 0)
+        && page_ok (h_rev h rev) U (h_off h off) (h_size h size) (map fst out)
+        && Z.eqb (x_total r) (total_spec U xs)
+        && (negb (shows_hist h itv) || hist_spec_ok (h_itv h itv) U xs (x_hist r))
+    | VOk p qs xs, AErr GInternal =>
+        (negb p && negb (Nat.eqb (errs_spec xs) 0))
+        || expired_on_someone d answered (concat (hot ++ hotread ++ cold))
+    | _, AErr GInternal => expired_on_someone d answered (concat (hot ++ hotread ++ cold))
+    | _, _ => false
+    end.
+Definition dlapi_agrees (h : handler) (itv : N) (m : tapi) (impl : api) : bool :=
+  match m, impl with
+  | TA (AErr a), AErr b => gcode_eqb a b
+  | TA AOnlyError, AOnlyError => true
+  | TA (AResp f c l r), AResp f' c' l' r' =>
+      Bool.eqb f f' && ecode_eqb c c' && list_eqb id_eqb (map fst l) (map fst l')
+      && Z.eqb (x_total r) (x_total r')
+      && (negb (shows_hist h itv) || hist_eqb (x_hist r) (x_hist r'))
+  | _, _ => false
+  end.
+
 (* ------------------------------------------------------------------ cases *)
 Inductive fres := FPanic | FOk (out : list doc).
 
@@ -398,7 +469,15 @@ Inductive case :=
 (* the real proxyapi Search / ComplexSearch handler, whole response: documents (id, payload tag) in
    response order, total (int64), flag, code, histogram *)
 | CPage (q : areq) (hot hotread cold : list shard) (calls : list (src * fcall)) (asked : list (src * list id))
-        (impl : apid).
+        (impl : apid)
+(* Ingestor.Search under a request context that expires at logical time d (None = never) against stores whose
+   answer becomes available at a logical time: fetch = ShouldFetch; answered = the stores that really answered
+   the Search call (observed); impl as CSearch *)
+| CDl (d : option nat) (hot hotread cold : list tshard) (off size : nat) (rev : bool) (itv : N) (naggs : nat)
+      (fetch : bool) (answered : list src) (impl : sres)
+(* the same through the real proxyapi handlers Search / ComplexSearch / GetAggregation / GetHistogram *)
+| CDlApi (h : handler) (d : option nat) (hot hotread cold : list tshard) (off size : nat) (rev : bool) (itv : N)
+         (naggs : nat) (answered : list src) (impl : api).
 
 Definition sres_agrees (m impl : sres) : bool :=
   match m, impl with
@@ -457,6 +536,12 @@ Definition case_agrees (c : case) : bool :=
       && extra_eqb (merge_rest isort qs xs rev itv naggs) impl
   | CPage q hot hotread cold calls asked impl =>
       existsb (page_agrees q hot hotread cold calls asked impl) bools2
+  | CDl d hot hotread cold off size rev itv naggs fetch answered impl =>
+      existsb (fun pp => tsres_agrees (tsearch isort (fst pp) (snd pp) d hot hotread cold off size rev itv naggs fetch 0 []) impl)
+              bools2
+  | CDlApi h d hot hotread cold off size rev itv naggs answered impl =>
+      existsb (fun pp => dlapi_agrees h itv (tapi_of isort h (fst pp) (snd pp) d hot hotread cold off size rev itv naggs 0 []) impl)
+              bools2
   end.
 
 (* implementation output satisfies the property *)
@@ -491,6 +576,10 @@ Definition case_spec_ok (c : case) : bool :=
       && nodup_N (map fst (x_hist impl))
   | CPage q hot hotread cold calls asked impl =>
       existsb (page_allowed q hot hotread cold calls asked impl) bools2
+  | CDl d hot hotread cold off size rev itv naggs fetch answered impl =>
+      existsb (dl_allowed d hot hotread cold off size rev itv naggs answered impl) bools2
+  | CDlApi h d hot hotread cold off size rev itv naggs answered impl =>
+      existsb (dlapi_allowed h d hot hotread cold off size rev itv naggs answered impl) bools2
   end.
 
 Definition diff_indices (l : list case) : list nat := bad_indices (fun c => negb (case_agrees c)) l.
